@@ -45,6 +45,7 @@ var (
 	ErrInvalidBlockTimestamp               = errors.New("invalid block timestamp")
 	ErrInvalidWarpSignature                = errors.New("invalid warp signature")
 	ErrInvalidSignatureType                = errors.New("invalid signature type")
+	ErrInvalidChunkCertificateExpiry       = errors.New("invalid chunk certificate expiry")
 )
 
 type ChainState interface {
@@ -334,6 +335,17 @@ func (n *Node[T]) Verify(ctx context.Context, parent Block, block Block) error {
 			n.chainState,
 		); err != nil {
 			return fmt.Errorf("%w %s: %w", ErrInvalidWarpSignature, chunkCert.ChunkID, err)
+		}
+	}
+
+	// A chunk certificate may only be referenced while it is valid at the block timestamp. The
+	// validity window above stops tracking a certificate once its expiry has passed, so without this
+	// check an expired certificate (in particular one that an ancestor already included) could be
+	// referenced again.
+	validityWindow := n.ruleFactory.GetRules(block.Timestamp).GetValidityWindow()
+	for _, chunkCert := range block.ChunkCerts {
+		if err := validitywindow.VerifyTimestamp(chunkCert.Expiry, block.Timestamp, validityWindowTimestampDivisor, validityWindow); err != nil {
+			return fmt.Errorf("%w %s: %w", ErrInvalidChunkCertificateExpiry, chunkCert.ChunkID, err)
 		}
 	}
 
